@@ -473,6 +473,11 @@ def parse_mir(text):
             i += 1
             continue
         m = re.match(r'^(fn|const|static) (.*) \{\s*$', line) if (line.startswith('fn ') or line.startswith('const ') or line.startswith('static ')) else None
+        if m is None and re.match(r'^\S.*::\{constant#\d+\}: .* = \{\s*$', line):
+            # inline const block of a named constant: `NAME::{constant#0}: usize = {`
+            line = 'const ' + line
+            lines[i] = line
+            m = re.match(r'^(fn|const|static) (.*) \{\s*$', line)
         if m and not (line.startswith('const ') and ' = {' not in line and '::promoted[' not in line):
             # collect until a line that is exactly '}'
             j = i + 1
@@ -512,7 +517,8 @@ def _parse_body(chunk):
             mm = re.match(r'^(?:const|static) (.*?): (.*) = \{\s*$', header)
         b = Body(mm.group(1), header)
         b.ret_type = mm.group(2)
-        b.is_promoted = True
+        b.is_promoted = '::promoted[' in mm.group(1)
+        b.is_const = True
     b.text = chunk
     cur = None
     for line in chunk[1:]:
